@@ -41,4 +41,73 @@ theorem gen_verifyHash_total (crc fnv : List UInt8 → UInt64) (data : List UInt
       have n2 : ¬ ((fnv data).toNat = hash.toNat) := fun h => h2 (UInt64.toNat_inj.mp h)
       simp [h1, h2, n1, n2]
 
+/-! ### the optional fields of a `DataFrame` (`**int` in Go: absent = nil or pointer to nil) -/
+
+/-- the model's `Frame.index / total / hash : Option _` is the Go `**int` with both kinds of absence identified -/
+def flat {α : Type} (p : Option (Option α)) : Option α := p.join
+
+theorem gen_getIndex (n : Ipldbindcode_DataFrame) :
+    framesGetIndex n = .ok (match flat n.Index with | some v => (v, true) | none => (0, false)) := by
+  unfold framesGetIndex flat
+  cases h : n.Index with
+  | none => rfl
+  | some q => cases q <;> rfl
+
+theorem gen_getTotal (n : Ipldbindcode_DataFrame) :
+    framesGetTotal n = .ok (match flat n.Total with | some v => (v, true) | none => (0, false)) := by
+  unfold framesGetTotal flat
+  cases h : n.Total with
+  | none => rfl
+  | some q => cases q <;> rfl
+
+theorem gen_getHash (n : Ipldbindcode_DataFrame) :
+    framesGetHash n = .ok (match flat n.Hash with | some v => (Go.u64OfInt v, true) | none => (0, false)) := by
+  unfold framesGetHash flat
+  cases h : n.Hash with
+  | none => rfl
+  | some q => cases q <;> rfl
+
+theorem gen_hasIndex (n : Ipldbindcode_DataFrame) : framesHasIndex n = .ok (flat n.Index).isSome := by
+  unfold framesHasIndex flat
+  cases h : n.Index with
+  | none => rfl
+  | some q => cases q <;> rfl
+
+theorem gen_hasTotal (n : Ipldbindcode_DataFrame) : framesHasTotal n = .ok (flat n.Total).isSome := by
+  unfold framesHasTotal flat
+  cases h : n.Total with
+  | none => rfl
+  | some q => cases q <;> rfl
+
+theorem gen_hasHash (n : Ipldbindcode_DataFrame) : framesHasHash n = .ok (flat n.Hash).isSome := by
+  unfold framesHasHash flat
+  cases h : n.Hash with
+  | none => rfl
+  | some q => cases q <;> rfl
+
+/-- the accessors never dereference a nil pointer, and `GetX` reports presence exactly when `HasX` does -/
+theorem gen_get_has_agree (n : Ipldbindcode_DataFrame) :
+    (∃ v, framesGetIndex n = .ok (v, (flat n.Index).isSome) ∧ framesHasIndex n = .ok (flat n.Index).isSome) ∧
+    (∃ v, framesGetTotal n = .ok (v, (flat n.Total).isSome) ∧ framesHasTotal n = .ok (flat n.Total).isSome) ∧
+    (∃ v, framesGetHash n = .ok (v, (flat n.Hash).isSome) ∧ framesHasHash n = .ok (flat n.Hash).isSome) := by
+  rw [gen_getIndex, gen_getTotal, gen_getHash, gen_hasIndex, gen_hasTotal, gen_hasHash]
+  refine ⟨?_, ?_, ?_⟩
+  · cases flat n.Index <;> exact ⟨_, rfl, rfl⟩
+  · cases flat n.Total <;> exact ⟨_, rfl, rfl⟩
+  · cases flat n.Hash <;> exact ⟨_, rfl, rfl⟩
+
+/-- the comparator of `sort.Slice` in `getAllFramesFromDataFrame` (`if !iOk || !jOk { return iOk }; return iIndex < jIndex`),
+    evaluated with the translated `GetIndex`, is the model's `Frames.less` on the flattened index fields -/
+def toFrame (n : Ipldbindcode_DataFrame) (next : List Frames.Cid) : Frames.Frame :=
+  { index := flat n.Index, total := flat n.Total, hash := (flat n.Hash).map (fun v => (Go.u64OfInt v).toNat), data := n.Data, next := next }
+
+theorem gen_getIndex_less (a b : Ipldbindcode_DataFrame) (na nb : List Frames.Cid) :
+    (do let i ← framesGetIndex a
+        let j ← framesGetIndex b
+        pure (if !i.2 || !j.2 then i.2 else decide (i.1 < j.1)) : Go.M Bool)
+      = .ok (Frames.less (toFrame a na) (toFrame b nb)) := by
+  rw [gen_getIndex, gen_getIndex]
+  unfold Frames.less toFrame
+  cases flat a.Index <;> cases flat b.Index <;> rfl
+
 end GoTies.C14
